@@ -149,3 +149,130 @@ def op_sequence(case):
         except Exception as e:  # noqa: BLE001
             outs.append({"error": "%s: %s" % (type(e).__name__, str(e)[:200])})
     return {"outs": outs}
+
+
+@register("learn_chunks")
+def op_learn_chunks(case):
+    """learn a job set in chunks, each chunk boundary crossing save-to-JSON (-om) / load-from-JSON (-im) through the
+    real pv_streams_to_puml_files / load_events_from_file; returns the diagram after every chunk"""
+    import os
+    import shutil
+    import tempfile
+    from tel2puml.events import load_events_from_file
+    from tel2puml.pv_to_puml.pv_to_puml import pv_streams_to_puml_files
+    seed_uuid(case.get("uuid_seed", 0))
+    name = case.get("present", {}).get("job_name", "j")
+    out = tempfile.mkdtemp(prefix="verif-c04-", dir="/dev/shm" if os.path.isdir("/dev/shm") else None)
+    try:
+        texts = []
+        models = []
+        for ci, chunk in enumerate(case["chunks"]):
+            seqs = render_jobs(chunk, dict(case.get("present", {}), pseed=case.get("present", {}).get("pseed", 0) + ci))
+            events_map = {}
+            mpath = os.path.join(out, "%s_model.json" % name)
+            if ci > 0:
+                jn, events = load_events_from_file(mpath)
+                events_map[jn] = events
+            pv_streams_to_puml_files([(name, seqs)], out, events_map, save_models=True)
+            with open(os.path.join(out, "%s.puml" % name)) as fh:
+                texts.append(fh.read())
+            with open(mpath) as fh:
+                models.append(fh.read())
+        return {"text": texts[-1], "texts": texts, "model": models[-1]}
+    finally:
+        shutil.rmtree(out, ignore_errors=True)
+
+
+def _canon_tree(t):
+    """canonical text of a pm4py process tree (children sorted)"""
+    if t is None:
+        return None
+    if t.operator is None:
+        return "tau" if t.label is None else str(t.label)
+    return "%s(%s)" % (t.operator.value if hasattr(t.operator, "value") else str(t.operator),
+                       ",".join(sorted(_canon_tree(c) for c in t.children)))
+
+
+def _project_events(events):
+    from tel2puml.events import EventSet
+    from tel2puml.logic_detection import calculate_logic_gates
+    out = {}
+    for name, ev in events.items():
+        def bags(sets):
+            return sorted(sorted([k, v] for k, v in s.items()) for s in sets)
+        ob = bags(ev.event_sets)
+        tree = getattr(ev, "_logic_gate_tree", None)
+        rec = {"out": ob, "in": bags(ev.in_event_sets),
+               "stale": getattr(ev, "_update_since_logic_gate_tree", None)}
+        out[name] = rec
+    return out
+
+
+@register("model_replay")
+def op_model_replay(case):
+    """replay histories of spec/ModelCache.tla on real Event objects / model files; after every action return the
+    projection of the model and, for a read action, which bags the returned tree is the tree of"""
+    import os
+    import tempfile
+    from copy import deepcopy
+    from tel2puml.events import EventSet, load_events_from_file, save_events_to_file
+    from tel2puml.logic_detection import calculate_logic_gates
+    from tel2puml.pv_to_puml.data_ingestion import update_and_create_events_from_clustered_pvevents
+    jobs = case["jobs"]
+
+    def pv_job(j, n):
+        evs = []
+        for e in j:
+            if e["id"] == 0:
+                continue      # the dummy start event is added by the ingestion itself
+            evs.append(dict(jobId="job%d" % n, jobName="m", eventType=e["ty"], eventId="%d-%d" % (n, e["id"]),
+                            timestamp="2023-09-25T10:58:06.059959Z", applicationName="app",
+                            previousEventIds=["%d-%d" % (n, p) for p in e["pv"] if p != 0]))
+        return evs
+    tree_cache = {}
+
+    def tree_of_bags(bags):
+        key = repr(bags)
+        if key not in tree_cache:
+            sets = {EventSet([t for t, c in b for _ in range(c)]) for b in bags}
+            tree_cache[key] = _canon_tree(calculate_logic_gates(sets)) if sets else None
+        return tree_cache[key]
+    obs_all = []
+    fd, path = tempfile.mkstemp(prefix="verif-model-", suffix=".json", dir="/dev/shm" if os.path.isdir("/dev/shm") else None)
+    os.close(fd)
+    try:
+        for hist in case["hists"]:
+            events = {}
+            last_tree = {}
+            n = 0
+            obs = []
+            if os.path.exists(path):
+                os.remove(path)
+            for kind, arg in hist:
+                try:
+                    if kind == "ingest":
+                        n += 1
+                        events = update_and_create_events_from_clustered_pvevents([pv_job(jobs[arg - 1], n)],
+                                                                                  add_dummy_start=True, events=events)
+                    elif kind == "read":
+                        last_tree[arg] = _canon_tree(events[arg].logic_gate_tree)
+                    elif kind == "save":
+                        save_events_to_file("m", events, path)
+                    elif kind == "load":
+                        _name, events = load_events_from_file(path)
+                        last_tree = {}
+                    proj = _project_events(events)
+                    for t, rec in proj.items():
+                        # what reading the tree now returns (read on a deep copy: the walk reads copies too)
+                        tr = _canon_tree(deepcopy(events[t]).logic_gate_tree)
+                        rec["tree"] = tr
+                        cands = {}
+                        rec["tree_of"] = {repr(rec["out"]): tree_of_bags(rec["out"])}
+                    obs.append({"types": proj})
+                except Exception as e:  # noqa: BLE001
+                    obs.append({"error": "%s: %s" % (type(e).__name__, str(e)[:200])})
+            obs_all.append(obs)
+    finally:
+        if os.path.exists(path):
+            os.remove(path)
+    return {"obs": obs_all}
